@@ -1,6 +1,7 @@
 /-
 C17 — Text octets match the standard charset named by data_coding.
 -/
+import Smpp.Properties.SrcCompose
 import Smpp.Properties.SrcCoding
 import Smpp.Proofs.Utf16
 import Smpp.Spec.Iso8859
